@@ -43,3 +43,9 @@ package stdlib_contracts
 //@ func (Opcode).String
 //@ assumed
 //@ pure
+
+//@ package math/bits
+//@ func OnesCount32
+//@ assumed
+//@ pure
+//@ ensures 0 <= result && result <= 32
